@@ -34,7 +34,9 @@ Bases(k, s) == LET SL == Slots(k, s) IN
   ELSE IF k = "alter" THEN LET b == BuildFrom(SL, 1, <<>>, <<>>) IN {AlterTail(1, b.a, b.t)}
   ELSE {BuildFrom(SL, 1, <<>>, <<>>)}
 
-WsGaps == <<"  ", "\t", "\n", "\r\n", "\r", " \n\t ">>
+\* runs of blanks around the sizes of small buffers (63, 64, 65, 130 blanks; a line break and a deep indentation): written by
+\* the renderer for the placeholders {SP63} {SP64} {SP65} {SP130} {NL80}
+WsGaps == <<"  ", "\t", "\n", "\r\n", "\r", " \n\t ", "{SP63}", "{SP64}", "{SP65}", "{SP130}", "{NL80}">>
 CommentGaps == <<" /* c */ ", " -- c\n", "\n/* multi\nline */\n", " /**/ ", " /* a */ /* b */ -- c\n ", " -- c\r", " -- c\r\n", "\t--\n",
                 \* comment bodies that begin / end with the characters of the delimiters
                 " /*/ c */ ", " /*// c */ ", " /***/ ", " /* * / */ ", " /*/*/ ", " --\n", " ---- c --\n">>
